@@ -292,7 +292,7 @@ def spec(tier, seed):
               "D": shapes.shapes_D(2, 1)[::3] + shapes.shapes_D(2, 2)[::25],
               "S": [s for s in shapes.shapes_S(3) if s[1] > 0][:3]}
     else:
-        sh = {"H": shapes.shapes_H_upto(3, 2)[::2] + shapes.shapes_H(3, 3)[::6], "D": shapes.shapes_D_upto(2, 2)[::9], "S": shapes.shapes_S_upto(4, (0,))[::3]}
+        sh = {"H": shapes.shapes_H_upto(3, 2)[::2] + shapes.shapes_H(3, 3)[::6], "D": shapes.shapes_D_upto(2, 2)[::9], "S": [s for s in shapes.shapes_S_upto(4, (0,)) if s[1] <= 7][::2]}
     units = []
     first = {}
     for name, f in fns.items():
